@@ -177,6 +177,10 @@ class Engine:
 
     def lookup_name(self, st, name):
         if name in st.env:
+            ub = st.env.get('$ub')
+            if ub and name in ub and not st.spec:
+                # a for-loop target read after the loop: unbound when the loop body never ran
+                st.may_raise(z3.Not(ub[name]), 'UnboundLocalError', 'name %s' % name)
             return st.env[name]
         if name in self.closure_env:
             return self.closure_env[name]
@@ -259,6 +263,15 @@ class Engine:
             return VBool(st.rd(attr, ref, B))
         if kind == 'str':
             return VStr(st.rd(attr, ref, S))
+        if kind.startswith(('ref', 'list:', 'map:')) and not getattr(st, 'raw_index', False):
+            # closed heap: an allocated object only refers to allocated objects (so fresh objects differ from them)
+            val = st.rd(attr, ref)
+            st.pc.append(z3.Or(z3.Not(st.is_alloc(ref)), val == 0, st.is_alloc(val)))
+            a0, al0 = self.init_heap.get(attr), self.init_heap.get('$alloc')
+            if a0 is not None and al0 is not None and st.heap.get(attr) is a0:
+                # the field has not been written since entry: what it refers to existed at entry (so it differs from
+                # everything allocated since)
+                st.pc.append(z3.Or(z3.Not(z3.Select(al0, ref)), val == 0, z3.Select(al0, val)))
         if kind.startswith('ref'):
             return VRef(st.rd(attr, ref), kind[4:] or None)
         if kind.startswith('list:'):
@@ -769,7 +782,73 @@ class Engine:
         return VStr(z3.If(n == 0, z3.StringVal(''), res_n.t))
 
     def list_comp(self, st, e):
-        raise OutOfSubset('list comprehension')
+        """Selecting comprehensions only: the element expression is the innermost loop variable, so the result holds
+        elements of the source lists and nothing else (which ones, in which order and how often is left open):
+            [x for x in L if c]                 every R[i] is some L[j];  len(R) <= len(L)
+            [x for a in A for x in a.f]         every R[i] is some (A[k].f)[j];  len(A[k].f) <= len(R) for every k
+        Evaluating the inner iterable for an arbitrary k yields the safety obligations of all iterations."""
+        gens = e.generators
+        if not (isinstance(e.elt, ast.Name) and isinstance(gens[-1].target, ast.Name) and gens[-1].target.id == e.elt.id):
+            raise OutOfSubset('list comprehension that transforms its elements')
+        if any(g.is_async for g in gens) or len(gens) > 2 or (len(gens) == 2 and (gens[0].ifs or gens[1].ifs)):
+            raise OutOfSubset('list comprehension shape')
+        src = self.ev.ev(st, gens[0].iter)
+        if not isinstance(src, VList):
+            raise OutOfSubset('list comprehension over %s' % kind_of(src))
+        i = z3.Int(fresh_name('ci'))
+        jf = z3.Function(fresh_name('cj'), I, I)
+        r = st.alloc('comp')
+        if len(gens) == 1:
+            ek = src.ek
+            n = st.llen(src.t)
+            new = z3.Const(fresh_name('comp_el'), ARR_IS if ek == 'str' else ARR_II)
+            rl = z3.Int(fresh_name('comp_len'))
+            st.pc += [rl >= 0, rl <= n]
+            if not gens[0].ifs:
+                st.pc.append(rl == n)
+                k = z3.Int(fresh_name('k'))
+                st.pc.append(smt.forall([k], z3.Select(new, k) == st.lget(src.t, k, ek), patterns=[z3.Select(new, k)]))
+            else:
+                st.pc.append(smt.forall([i], z3.Implies(z3.And(0 <= i, i < rl),
+                                                        z3.And(0 <= jf(i), jf(i) < n, z3.Select(new, i) == st.lget(src.t, jf(i), ek))),
+                                        patterns=[z3.Select(new, i)]))
+            st.wr('$len', r, rl)
+            st.lset_all(r, new, ek)
+            return VList(r, ek)
+        if not isinstance(gens[0].target, ast.Name):
+            raise OutOfSubset('list comprehension target')
+        # inner iterable at an arbitrary outer index k
+        k = z3.Int(fresh_name('ck'))
+        n = st.llen(src.t)
+        saved = st.env.get(gens[0].target.id)
+        st.guards.append(z3.And(0 <= k, k < n))
+        try:
+            st.env[gens[0].target.id] = self.elem_value(st.lget(src.t, k, src.ek), src.ek)
+            inner = self.ev.ev(st, gens[1].iter)
+        finally:
+            st.guards.pop()
+            if saved is None:
+                st.env.pop(gens[0].target.id, None)
+            else:
+                st.env[gens[0].target.id] = saved
+        if not isinstance(inner, VList):
+            raise OutOfSubset('list comprehension over %s' % kind_of(inner))
+        ek = inner.ek
+        kf = z3.Function(fresh_name('ck'), I, I)
+        new = z3.Const(fresh_name('comp_el'), ARR_IS if ek == 'str' else ARR_II)
+        rl = z3.Int(fresh_name('comp_len'))
+        st.pc.append(rl >= 0)
+        inner_at = lambda t: z3.substitute(inner.t, (k, t))       # noqa: E731
+        st.pc.append(smt.forall([i], z3.Implies(
+            z3.And(0 <= i, i < rl),
+            z3.And(0 <= kf(i), kf(i) < n, 0 <= jf(i), jf(i) < st.llen(inner_at(kf(i))),
+                   z3.Select(new, i) == st.lget(inner_at(kf(i)), jf(i), ek))), patterns=[z3.Select(new, i)]))
+        k2 = z3.Int(fresh_name('k'))
+        st.pc.append(smt.forall([k2], z3.Implies(z3.And(0 <= k2, k2 < n), st.llen(inner_at(k2)) <= rl),
+                                patterns=[st.lget(src.t, k2, src.ek)]))
+        st.wr('$len', r, rl)
+        st.lset_all(r, new, ek)
+        return VList(r, ek)
 
     # ------------------------------------------------------------------ maps (dict objects in the heap)
     def map_key(self, m, k):
